@@ -68,7 +68,7 @@ def run(prop: str, tier: str, replay: str = None) -> int:
             n_cases = 1
         else:
             fams = FAMILIES[tier]
-            tmo = 2400 if tier == "thorough" else 600
+            tmo = 5400 if tier == "thorough" else 900
             with ThreadPoolExecutor(max_workers=len(fams)) as ex:
                 futs = [(fam, cfg, ex.submit(generate_family, fam, cfg, w,
                                              os.path.join(wd, f"gen.{fam}.ndjson"), tmo))
@@ -100,7 +100,7 @@ def run(prop: str, tier: str, replay: str = None) -> int:
         phases["run_real_code"] = round(time.time() - t0, 1)
         t0 = time.time()
         verdicts = tlc.validate_sharded("TraceIntervals.tla", "TraceIntervals.cfg", traces,
-                                        jobs=16, timeout=2400)
+                                        jobs=16, timeout=7200 if tier == "thorough" else 1800)
         phases["tlc_judges_traces"] = round(time.time() - t0, 1)
         rep.extra["phase_wall_s"] = phases
         case_line: Dict[str, str] = {}
